@@ -28,6 +28,7 @@ func verifyLemmas(P *Program, L *Library, labels []string, opt solveOpts) []*Fun
 		}
 		x := newExec(P, L)
 		x.closures = map[string]*closureInfo{}
+		x.known = map[string]string{}
 		x.curFn = "lemma"
 		x.revealAll = true
 		lopt := L.LemmaOpts[lab]
